@@ -1224,7 +1224,7 @@ run_task(_task_t t)
 static __attribute__((pure, const)) ev_tstamp
 instant_to_tstamp(echs_instant_t i)
 {
-/* this way around it's easier, date range supported is 2001 to 2099
+/* this way around it's easier, date range supported is 1901 to 2099
  * (i.e. with no bullshit leap years) */
 	static uint16_t __mon_yday[] = {
 		/* this is \sum ml,
@@ -1236,9 +1236,9 @@ instant_to_tstamp(echs_instant_t i)
 	unsigned int nd = 0U;
 	time_t t;
 
-	/* days from 2001-01-01 till day 0 of current year,
+	/* days from 1901-01-01 till day 0 of current year,
 	 * i.e. i.y-01-00 */
-	nd += 365U * (i.y - 2001U) + (i.y - 2001U) / 4U;
+	nd += 365U * (i.y - 1901U) + (i.y - 1901U) / 4U;
 	/* day-of-year */
 	nd += __mon_yday[i.m] + i.d + UNLIKELY(!(i.y % 4U) && i.m >= 3);
 
@@ -1248,7 +1248,7 @@ instant_to_tstamp(echs_instant_t i)
 		t = (time_t)nd * 86400UL;
 	}
 	/* calc number of seconds since unix epoch */
-	t += 11322/*days from unix epoch to our epoch*/ * 86400UL;
+	t -= 25203/*days from our epoch to unix epoch*/ * (time_t)86400;
 	return (double)t;
 }
 
